@@ -13,13 +13,13 @@ PROOF_MODULES = []     # coq/Assume/*.v are compiled directly by coqc (not yet i
 OBLIGATIONS = ["C34/P_assumptions_sound.v", "C34/P_zero_sound.v", "C34/P_nonzero_sound.v", "C34/P_negative_sound.v",
                "C34/P_nonnegative_sound_guarded.v", "C34/P_nonpositive_sound_guarded.v", "C34/P_positive_sound_guarded.v",
                "C34/P_integer_sound.v", "C34/P_real_sound_guarded.v", "C34/P_complex_true_sound_guarded.v",
-               "C34/P_complex_false_sound.v", "C34/P_finite_sound.v", "C34/P_even_sound.v", "C34/P_odd_sound.v",
+               "C34/P_complex_false_sound.v", "C34/P_rational_sound_partial.v", "C34/P_finite_sound.v", "C34/P_even_sound.v", "C34/P_odd_sound.v",
                "C34/P_refuted_nonnegative_nan_zoo.v", "C34/P_refuted_positive_complex_coefficient.v",
                "C34/P_refuted_real_false_mul.v", "C34/P_refuted_real_false_add.v", "C34/P_refuted_real_pole.v",
                "C34/P_nonvacuous.v"]
 ASSUME_SRC = ["Assume/Tribool.v", "Assume/AssumeModel.v", "Assume/RefineModel.v", "Assume/AssumeSem.v",
               "Assume/AssumeProofs.v", "Assume/AssumeProofs2.v", "Assume/AssumeProofs3.v", "Assume/C34Theorems.v",
-              "Assume/RefineProofs.v"]
+              "Assume/RefineProofs.v", "Assume/RefinePow.v", "Assume/RefineMaxMin.v"]
 
 QNAMES = ["zero", "nonzero", "positive", "negative", "nonnegative", "nonpositive", "integer", "real", "complex",
           "rational", "irrational", "finite", "infinite", "algebraic", "transcendental", "even", "odd",
@@ -147,7 +147,9 @@ def leaf(rng):
     if r < 0.93:
         return rng.choice(CONSTS)
     if r < 0.98:
-        return rng.choice(RARE)
+        # non-finite doubles only as bare numbers (gen_targeted): floor/ceiling/... of them kill the
+        # process in the constructors (SIGFPE, outside the anchored code)
+        return rng.choice([x for x in RARE if not (x.startswith("(d 7ff") or x.startswith("(d fff"))])
     return rng.choice(WEIRD)
 
 
@@ -311,6 +313,9 @@ def classify(qname, claim, dump, vdump):
     """known-finding class of an unsound definite answer: query, claim, top node of the expression and the
     kind of value that contradicts the claim"""
     vc, sh = value_class(vdump), shape_of(dump)
+    if qname == "real" and claim == "F" and sh in ("Add", "Mul", "Pow"):
+        # the unsound "not real" answers of RealVisitor(Add) / (Mul) propagate through every composite
+        sh = "composite"
     if vc in ("zoo", "nan", "inf") and sh not in ("NaN", "Inf") and claim == "T":
         # a definite "real" / "complex" answer for an expression that has a pole at the valuation
         return "C34/pole:%s=%s" % (qname, claim)
@@ -397,6 +402,10 @@ def explore(ctx, drv, model, cases, stats, search=False):
             import re as _re
             for m in _re.finditer(r"(\w+)=([TF])@(\d+):(\([^()]*\))", f[4]):
                 qn, claim, vdump = m.group(1), m.group(2), m.group(4)
+                if qn == "complex" and claim == "F" and shape_of(f[0]) not in ("I", "Q", "C", "D", "CD", "Inf", "NaN"):
+                    # "not a finite complex number" for a composite comes from a singular function value
+                    # (atanh(1), log(0) ...) that substitution leaves unevaluated: not judged
+                    continue
                 key = classify(qn, claim, f[0], vdump)
                 ctx.violation(key, "is_%s(e) = %s under the assumptions, but the value at a satisfying valuation does not agree: %s ; case %s" % (
                     qn, claim, f[4], case.replace("\t", " | ")), {"family": "assume", "case": case, "dump": f[0]})
